@@ -6,7 +6,8 @@ syncUpdate / sync / expire / select / pickle / destroy.
 
 oracle (no model involved), after every step: number and text of the UPDATE statements the step sent (none for
 assign/set on a lazy object; for syncUpdate/sync/pickle exactly one, assigning exactly the harness's own record
-of the latest unwritten value of each assigned column, none when nothing is pending); raw row before/after
+of the latest unwritten value of each assigned column, none when nothing is pending; the same for the flush of
+a lazy cascade='null' referrer inside destroySelf of the row it references); raw row before/after
 (unchanged by assign/set; old row overridden by the pending values after a flush); `sqlmeta.dirty` == "unwritten
 assignments exist" for every held instance; INSERT / DELETE take effect immediately; what the object shows.
 """
@@ -22,6 +23,7 @@ META = {
                   '+ statement-log / raw-row / flag oracle after every step'),
     'level_text': ('Theorems C16_no_update_before_sync(_history), C16_sync_writes_pending, C16_sync_flushes_then_reloads, '
                    'C16_pending_latest, C16_dirty_iff_pending(_history), C16_insert_immediate, C16_delete_immediate, '
+                   'C16_only_flush_ops_write_lazy, C16_null_cascade_flushes_referrer, '
                    'C16_pickle_flushes: for every state / every history of the model OrmVal, assignments and set() on lazy '
                    'objects send no statement and change no table; syncUpdate/sync/pickling send exactly one UPDATE holding the '
                    'latest pending value of each assigned column (none if nothing pending) and leave the row = old row '
